@@ -451,7 +451,9 @@ QuickCells == {c \in FullCells : Groups(c) <= 1}
 
 Init ==
   /\ CASE Dom = "single" -> cellA \in FullCells /\ cellB = AbsCell /\ mdoc = "both"
-       [] Dom = "one"    -> cellA = (CHOOSE c \in FullCells : Only \in CellTags(c) /\ c.rk # "cls") /\ cellB = AbsCell /\ mdoc = "both"
+       [] Dom = "defects" -> /\ cellA \in {CHOOSE c \in FullCells : CellTags(c) = {t} /\ c.rk # "cls" :
+                                               t \in {"alias", "raise", "sov", "ovomis", "ovoself"}}
+                             /\ cellB = AbsCell /\ mdoc = "both"
        [] Dom = "pair"   -> cellA \in KindCells /\ cellB \in CtxCells /\ mdoc = "both"
        [] Dom = "mdoc"   -> cellA = FunFun /\ cellB \in {AbsCell, FunFun} /\ mdoc \in {"both", "rt", "st", "none"}
        [] Dom = "quick"  -> \/ cellA \in QuickCells /\ cellB = AbsCell /\ mdoc = "both"
@@ -485,6 +487,15 @@ SameForAllOrdersAndPlacements ==
   Done /\ Asserted => \A i, j \in 1..Len(results) :
      /\ results[i].tree = results[j].tree /\ results[i].tgt = results[j].tgt /\ results[i].err = results[j].err
 \* within one run exceptions never escape the handlers the agenda holds
+\* the documented defect classes: with these "invariants" TLC must REPORT a violation (Merge_defect.cfg, -continue),
+\* i.e. the model exhibits each defect on a case carrying exactly that tag
+Shows(tag, f) == ~(Done /\ Tags = {tag} /\ \E i \in 1..Len(results) : ~results[i].cl[f])
+DefectAliasResolved     == Shows("alias", "noresolve")
+DefectRaises            == Shows("raise", "noraise")
+DefectStubOverloadsLost == Shows("sov", "types")
+DefectOverloadsOnNonFunction == Shows("ovomis", "untouched")
+DefectPlacementDependent ==
+  ~(Done /\ Tags = {"ovoself"} /\ \E i, j \in 1..Len(results) : results[i].tree # results[j].tree)
 NoLostException == (pc = "run" /\ exc) => (ag # <<>> /\ IsCatch(ag[1]))
 
 ClassMap == [n \in {"a", "b"} |-> [f \in {"self", "u", "v"} |-> Class(<<n, f>>)]]
